@@ -36,11 +36,11 @@ def gen_grammar(rng, terms, lr_bias=0.93, max_nts=4, max_alts=4, max_len=5, star
                     else:
                         alt.append(rng.choice(nts))
             alt = tuple(alt[:max_len])
-            if alts and alt == alts[-1]:
-                # adjacent duplicates make the constructor assert: out of domain
-                alt = alt + (rng.choice(terms),)
             if alt == () and () in alts:
                 alt = (rng.choice(terms),)
+            while alts and alt == alts[-1]:
+                # adjacent duplicates make the constructor assert: out of domain
+                alt = alt + (rng.choice(terms),)
             alts.append(alt)
         prods[nt] = alts
     return prods
@@ -184,6 +184,10 @@ def hidden_cycle_grammar(rng, terms, order):
 
 
 # ----------------------------------------------------------------- analyses
+def has_adjacent_duplicates(prods):
+    return any(a == b for alts in prods.values() for a, b in zip(alts, alts[1:]))
+
+
 def nullable_set(prods):
     n = set()
     changed = True
